@@ -4,6 +4,8 @@
 cd /verif || exit 2
 for d in seeded/${1:-*}/; do
   n=$(basename $d); p=$(echo $n | cut -c1-3)
+  # a seed whose defect lives in a command-line tool is run against the check that drives the tools (meta.json: caught_by)
+  cb=$(python3 -c "import json,sys,re; m=json.load(open('$d/meta.json')); r=re.search(r'check.py (C\d\d)', m.get('caught_by','')); print(r.group(1) if r else '')" 2>/dev/null); [ -n "$cb" ] && p=$cb
   [ -f $d/patch.diff ] || continue
   if [ -f $d/meta.json ] && grep -q '"kept_as_seed": false' $d/meta.json; then echo "$n not-kept"; continue; fi
   r=$(drv/seedtest.sh $d/patch.diff $p 2>&1 | grep -E "^OK|VIOLATION|signature|BUILD|refusing|does not apply" | head -2 | tr '\n' ' ' | cut -c1-230)
